@@ -64,14 +64,15 @@ func (x *X) Log() []string { return x.obs }
 
 // Scenario is one closed system to explore.
 type Scenario struct {
-	Name     string
-	Opt      rt.Options
-	Quick    int // deviation bound in the quick tier (-1: not run)
-	Thorough int // deviation bound in the thorough tier (-1: not run)
-	Prune    bool
-	Body     func(x *X)               // runs as simulated goroutine 0
-	Final    func(x *X, r *rt.Result) // runs after the execution ended (outside the simulation)
-	Reset    func()                   // resets process-global state before each execution
+	Name              string
+	Opt               rt.Options
+	Quick             int // deviation bound in the quick tier (-1: not run)
+	Thorough          int // deviation bound in the thorough tier (-1: not run)
+	Prune             bool
+	Body              func(x *X)               // runs as simulated goroutine 0
+	Final             func(x *X, r *rt.Result) // runs after the execution ended (outside the simulation)
+	Reset             func()                   // resets process-global state before each execution
+	AllowQuiescentEnd bool                     // the body may legitimately end without rt.Stop
 }
 
 // Check describes one property check binary.
@@ -137,6 +138,19 @@ func (rn *runner) judge(r *rt.Result) *X {
 	x.final = true
 	if rn.sc.Final != nil {
 		rn.sc.Final(x, r)
+	}
+	// Safety net: every scenario body ends by calling rt.Stop. An execution that ended
+	// any other way (everything blocked, or the horizon passed) means the body itself -
+	// i.e. an application-level call into the library - never returned; the scenario's
+	// own oracle did not get to look, so say it here.
+	if !rn.sc.AllowQuiescentEnd && (r.End == rt.EndQuiescent || r.End == rt.EndHorizon) && len(x.viol) == 0 {
+		where := "?"
+		for _, g := range r.Alive {
+			if g.ID == 0 {
+				where = g.PendTag()
+			}
+		}
+		x.Failf("body-blocked:"+where, "the scenario body never finished (execution ended %s): it is blocked in %q; alive: %v; log: %v", r.End, where, r.AliveSummary(), x.obs)
 	}
 	return x
 }
